@@ -71,6 +71,34 @@ class WrappedCallSite {
     return this.callSite.isConstructor()
   }
 
+  isAsync () {
+    return this.callSite.isAsync()
+  }
+
+  isPromiseAll () {
+    return this.callSite.isPromiseAll()
+  }
+
+  getPromiseIndex () {
+    return this.callSite.getPromiseIndex()
+  }
+
+  getScriptHash () {
+    return this.callSite.getScriptHash()
+  }
+
+  getEnclosingLineNumber () {
+    return this.callSite.getEnclosingLineNumber()
+  }
+
+  getEnclosingColumnNumber () {
+    return this.callSite.getEnclosingColumnNumber()
+  }
+
+  getPosition () {
+    return this.callSite.getPosition()
+  }
+
   toString () {
     return this.callSite.toString()
   }
